@@ -116,6 +116,14 @@ class MapV:
         return None
     def clone_value(s, e):
         n = MapV(); n.items = [[clone_val(e, p[0]), clone_val(e, p[1])] for p in s.items]; return n
+    def eq_value(s, e, o):
+        if not isinstance(o, MapV) or len(s.items) != len(o.items): return False
+        conds = []
+        for k, v in s.items:
+            p = o.find(e, k)
+            if p is None: return False
+            conds.append(veq(e, v, p[1]))
+        return b_and(*conds)
 
 
 class SetV:
